@@ -918,6 +918,12 @@ class quantized_linear(base_quantizer.BaseQuantizer):
   def use_variables(self):
     return self._use_variables
 
+  @use_variables.setter
+  def use_variables(self, use_variables):
+    # QNoiseScheduler.set_quantizers switches every quantizer that has a
+    # qnoise_factor to tf.Variable storage by assigning this attribute.
+    self._use_variables = use_variables
+
   @property
   def scale(self):
     return self.quantization_scale / self.data_type_scale
